@@ -155,6 +155,7 @@ type Client struct {
 	pendingCmds  []command
 	contReqs     []continuationRequest
 	closed       bool
+	readDone     bool // the read goroutine has failed the pending commands and is exiting
 }
 
 // New creates a new IMAP client.
@@ -540,6 +541,7 @@ func (c *Client) closeWithError(err error) {
 	c.state = imap.ConnStateLogout
 	pendingCmds := c.pendingCmds
 	c.pendingCmds = nil
+	c.readDone = true
 	c.mutex.Unlock()
 
 	for _, cmd := range pendingCmds {
@@ -1074,23 +1076,45 @@ func (ce *commandEncoder) flush() {
 	if err := ce.Encoder.CRLF(); err != nil {
 		// TODO: consider stashing the error in Client to return it in future
 		// calls
-		//
-		// Only fail this command from here. The other pending commands are
-		// failed by the read goroutine once it notices that the connection
-		// is closed: it may be dispatching data to them right now, so
-		// completing them from this goroutine would race with it.
-		//
-		// If the command isn't pending anymore, the server has already
-		// completed it before we were done writing it (e.g. it refused a
-		// literal with a tagged NO or BAD): that's the error the encoder
-		// reports, nothing was left half-written and the connection is
-		// still usable.
-		if cmd := ce.client.deletePendingCmdByTag(ce.cmd.tag); cmd != nil {
-			ce.client.conn.Close()
-			ce.client.completeCommand(cmd, err)
-		}
+		ce.client.writeFailed(ce.cmd, err)
 	}
 	ce.Encoder = nil
+}
+
+// writeFailed is called when a command couldn't be written.
+func (c *Client) writeFailed(baseCmd *Command, err error) {
+	c.mutex.Lock()
+	pending := false
+	for _, cmd := range c.pendingCmds {
+		if cmd.base() == baseCmd {
+			pending = true
+			break
+		}
+	}
+	readDone := c.readDone
+	c.mutex.Unlock()
+
+	// If the command isn't pending anymore, it has already been completed
+	// before we were done writing it: either the server refused a literal
+	// with a tagged NO or BAD (that's the error the encoder reports, nothing
+	// was left half-written and the connection is still usable), or the
+	// read goroutine has failed it.
+	if !pending {
+		return
+	}
+
+	c.conn.Close()
+
+	// Pending commands are failed by the read goroutine once it notices that
+	// the connection is closed: it may be dispatching data to them right now
+	// (including to the command being written), so completing them from
+	// this goroutine would race with it. Only when the read goroutine has
+	// already exited is it up to us to fail this command.
+	if readDone {
+		if cmd := c.deletePendingCmdByTag(baseCmd.tag); cmd != nil {
+			c.completeCommand(cmd, err)
+		}
+	}
 }
 
 // Literal encodes a literal.
